@@ -193,6 +193,13 @@ func (x *Exec) tolerantValue(u UnknownV, t types.Type, name string) Value {
 	x.inputs = x.inputs[:n]
 	switch vv := v.(type) {
 	case PtrV:
+		if strings.HasPrefix(u.Why, "elements of a sequence that are not tracked") {
+			// lists of contexts: what is appended comes from constructors whose contracts give non-nil results;
+			// the executor does not track element invariants of sequences of symbolic length
+			x.assumedCtr["elements of lists of symbolic length are non-nil pointers (no element invariants)"] = true
+			vv.Nil = False()
+			return vv
+		}
 		vv.Nil = Fresh("unk!nil", BoolSort)
 		return vv
 	case SliceV:
